@@ -5,13 +5,16 @@ EXTENDS Selectors, TraceKit
 VARIABLE l
 All(s, P(_)) == \A k \in DOMAIN s : P(s[k])
 
+Joined(e) == "joined" \in DOMAIN e.case /\ e.case.joined
 (* sel.table: chroms()/bins()/pixels() selectors sliced with any spelling and any column subset *)
 TableClauses(e) ==
   << <<"selectorAnswers", All(e.obs.q, LAMBDA q : q.err = "")>>,
      <<"rowsExact", All(e.obs.q, LAMBDA q : q.err # "" \/
-          q.rows = ProjectCols(TableSlice(e.case.rows, q.s).rows, q.colidx))>>,
+          q.rows = (IF Joined(e) THEN JoinedProject(TableSlice(e.case.rows, q.s).rows, q.colidx, e.case.table)
+                    ELSE ProjectCols(TableSlice(e.case.rows, q.s).rows, q.colidx)))>>,
      <<"labelsAreRowNumbers", All(e.obs.q, LAMBDA q : q.err # "" \/ q.index = TableSlice(e.case.rows, q.s).labels)>>,
-     <<"columnsAsAsked", All(e.obs.q, LAMBDA q : q.err # "" \/ q.columns = q.colnames)>> >>
+     <<"columnsAsAsked", All(e.obs.q, LAMBDA q : q.err # "" \/
+          q.columns = (IF Joined(e) THEN JoinedCols(q.colidx, e.case.allcols) ELSE q.colnames))>> >>
 
 (* sel.annotate: cooler.annotate(pixels, bins) and pixels(join=True) *)
 AnnotateClauses(e) ==
